@@ -782,6 +782,9 @@ def parallel_trace_oracle(c, o, which):
         elif e == 'di1' or e == 'di0':
             ndi += 1
     if 'deliver' in which:
+        if hang:
+            v.failures.append('the parallel call did not return: the record sets still to come were never delivered (trace so far: %s)' % parts[0][-200:])
+            return v
         if 'bad_out=0' not in rest:
             v.failures.append('a record set arrived with an output that was not computed for it (%s)' % rest)
             return v
@@ -1518,6 +1521,9 @@ def recset_iter_oracle(c, o, s):
             ended = True
         elif ended and t.startswith(('R:', 'O:', 'S')) and t[:2] != 'S0':
             v.failures.append('op %d: the reader had reported the end of the input and then delivered %s (no seek in between)' % (idx, t[:50]))
+            return v
+        if '!lines.' in t:
+            v.failures.append('op %d: the line iterator of a record breaks its contract: %s' % (idx, t.split('!lines.')[1][:30]))
             return v
         if t.startswith('I!'):
             v.failures.append('op %d: record-set iterator breaks its contract: %s' % (idx, t[2:].split(':')[0]))
